@@ -40,7 +40,9 @@ def cmd_word(prog, body, fl, send_bb):
 
 
 def order_rule(rep, prog, cfg):
-    b = logic_body(prog, "mpd_client::client::do_connect", {SPAWN})
+    # the handshake function: the body of mpd_client that spawns the loop (found by the spawn, not by name)
+    cands = [x for x in prog.bodies.values() if x.crate == "mpd_client" and any(SPAWN in callee_names(t) for _, t in x.calls())]
+    b = max(cands, key=lambda x: len(x.blocks)) if cands else None
     if b is None:
         rep.fail("C18.anchor", cfg + "/do_connect", "client/mod.rs", "no body of do_connect spawns the connection loop")
         return
